@@ -32,13 +32,17 @@ GENERIC = {
 
 
 class StubSession:
-    def __init__(self, payload=None):
+    def __init__(self, payload=None, routes=()):
         self.calls = []
         self.payload = GENERIC if payload is None else payload
+        self.routes = list(routes)          # [(substring of the URL, payload)]
 
     def _call(self, method, url, headers=None, params=None, data=None, timeout=None, skip_auto_headers=None, **kw):
         self.calls.append(dict(method=method.upper(), url=str(url), url_obj=url, headers=dict(headers or {}), params=params,
                                data=data, skip_auto_headers=skip_auto_headers))
+        for sub, payload in self.routes:
+            if sub in str(url):
+                return Resp(payload)
         return Resp(self.payload)
 
     def get(self, url, **kw):
